@@ -236,6 +236,11 @@ def v2_property(pid, tier, cfgs, cont, nontrivial, rule, level="model_checking",
                     continue
                 log("[%s] simple %s: recorded, %.1fs" % (pid, c2["name"], rec["wall"]))
                 files.append(rec["obs"])
+                if c2["ver"] == 1:
+                    conf = v.attempt("trace validation " + c2["name"], conformance_simple, v, sc, c2, rec, 60 if tier == "quick" else 1500)
+                    if conf:
+                        log("[%s] %s: trace validation against SimpleV1: %s" % (pid, c2["name"], conf))
+                        v.cov.setdefault("conformance", {})[c2["name"]] = conf
         lap("monitor ...")
         viol, events = run_monitor(sc, files, v)
         lap("monitor done")
@@ -679,6 +684,54 @@ def record_simple(binary, sc, cfg, runs, timeout=900, only=0):
     return dict(obs=f, races=races_in(out), spin=spin, wall=wall)
 
 
+def conformance_simple(v, sc, cfg, rec, limit=0):
+    """trace validation (code -> spec) of recorded v1 Simple runs against SimpleV1.tla; the unlogged steps of main, of the helper,
+    of the inner discipline and of the handlers are found by TLC.  Accepted traces "violate" NotDone once; the others are DRIFT."""
+    sub = os.path.join(sc, "ts-" + cfg["name"])
+    os.makedirs(sub, exist_ok=True)
+    stage_specs(sub)
+    shutil.copy(rec["obs"], os.path.join(sub, "trace.ndjson"))
+    open(os.path.join(sub, "TS.cfg"), "w").write(
+        "SPECIFICATION TSpec\nCONSTANTS\n  H = %d\n  Items = 100000\n  SyncGraceful = FALSE\n  CompleteBeforeWait = FALSE\n"
+        "INVARIANTS NotDone TraceInvariants\nVIEW TView\nCHECK_DEADLOCK FALSE\n" % cfg["H"])
+    starts, complete = [], set()
+    cur = None
+    for j, line in enumerate(open(rec["obs"]), 1):
+        if '"e":"Reset"' in line:
+            cur = j
+            starts.append(j)
+        elif '"e":"Free"' in line and cur:
+            complete.add(cur)
+    if limit and len(complete) > limit:
+        complete = set(sorted(complete)[:limit])
+    if len(complete) < len(starts):        # a run without the end marker (recorder ended early): nothing to validate there
+        keep, cur = [], None
+        lines = open(rec["obs"]).read().splitlines()
+        idx = starts + [len(lines) + 1]
+        for a, b in zip(idx, idx[1:]):
+            if a in complete:
+                keep += lines[a - 1:b - 1]
+        open(os.path.join(sub, "trace.ndjson"), "w").write("\n".join(keep) + "\n")
+    n = len(complete)
+    if n == 0:
+        return dict(traces=0, drift=0, note="no complete trace")
+    r = tlc(sub, "Trace_SimpleV1", cfg="TS.cfg", workers=8, timeout=1500, extra=["-continue"])
+    tool_errors = [l for l in r.out.splitlines() if l.startswith("Error:") and "Invariant" not in l and "behavior up to this point" not in l]
+    if not r.finished or r.distinct == 0 or tool_errors:
+        raise Inconclusive("trace validation TLC failed on Trace_SimpleV1 / %s: %s\n%s" % (cfg["name"], tool_errors[:2], r.out[-3000:]))
+    v.add_tlc(r, "Trace_SimpleV1 %s (trace validation of recorded v1 Simple runs against SimpleV1, silent steps searched)" % cfg["name"])
+    acc, hits = set(), 0
+    for inv, t0 in parse_violations(r.out, "t0"):
+        if inv == "NotDone":
+            acc.add(t0)
+        else:
+            hits += 1
+    conf = dict(traces=n, accepted=len(acc), drift=n - len(acc), spec_invariant_hits=hits)
+    if n - len(acc):
+        v.notes.append("DRIFT (not a verdict): SimpleV1.tla cannot explain %d of %d recorded %s traces" % (n - len(acc), n, cfg["name"]))
+    return conf
+
+
 def v2rand_configs(tier):
     c = [mk("r3unbuf", [3, 2, 1], 4, "fair", 1, 4, unbuf=(2,)), mk("r4rate", [7, 5, 3, 1], 10, "rate", 2, 5, unbuf=(3,)),
          mk("r2fault", [2, 1], 3, "rate", 1, 4, faults=1, unbuf=(1,)), mk("r5fairlow", [9, 7, 5, 3, 1], 7, "fairlow", 1, 3)]
@@ -794,6 +847,9 @@ def v1_property(pid, tier, kinds, nontrivial, rule, level="model_checking", mode
                 rec = record_simple(binary, sc, cfg, 150 if tier == "quick" else 3000)
                 log("[%s] %s: recorded, %.1fs" % (pid, cfg["name"], rec["wall"]))
                 files.append(rec["obs"])
+                conf = conformance_simple(v, sc, cfg, rec, limit=60 if tier == "quick" else 1500)
+                log("[%s] %s: trace validation against SimpleV1: %s" % (pid, cfg["name"], conf))
+                v.cov.setdefault("conformance", {})[cfg["name"]] = conf
         if extra:
             extra(v, sc)
         viol, events = run_monitor(sc, files, v)
